@@ -1,8 +1,767 @@
 import Grass.Proto
-/- Core `Color` — stub; replaced by the model (see DESIGN.md §8). -/
+import Grass.Generated.NamedColors
+/-
+  C15 core — colours.
+  Mirrors crates/compiler/src/color/mod.rs (constructors, equality, mix, hsl/hwb conversions,
+  invert, complement, lighten…, alpha operations), color/name.rs (through
+  Grass/Generated/NamedColors.lean), parse/value.rs:873 `parse_hex_color_contents`,
+  serializer.rs:465 `visit_color` and the argument handling of
+  builtin/functions/color/{rgb,hsl,hwb,opacity,other}.rs.
+
+  Numbers: grass computes in f64; the model computes in exact rationals (core `Rat`) with grass's
+  own rounding rules (`fuzzy_round`, `fuzzy_equals`, `f64::round`, Sass modulo).  The small amount
+  of number logic needed lives here (Num.lean / Units.lean / Value.lean belong to other properties).
+  Where f64 rounding could make the two differ (values within ~1e-13 of a rounding threshold) the
+  correspondence run reports it; on lattice inputs the thresholds are hit exactly or missed by far.
+-/
 namespace Grass.Color
+open Grass.Proto
+
+/-! ## Number helpers (value/number.rs) -/
+
+/-- `epsilon()` = 10^(-PRECISION-1), value/number.rs:18. -/
+def eps : Rat := 1 / 100000000000
+/-- `inverse_epsilon()`, value/number.rs:22. -/
+def invEps : Rat := 100000000000
+
+def absQ (x : Rat) : Rat := if x < 0 then -x else x
+
+/-- `f64::round`: nearest integer, halves away from zero. -/
+def roundI (x : Rat) : Int := if 0 ≤ x then (x + 1/2).floor else -((-x + 1/2).floor)
+def roundQ (x : Rat) : Rat := (roundI x : Rat)
+
+/-- `fuzzy_equals`, value/number.rs:40. -/
+def fuzzyEq (a b : Rat) : Bool :=
+  a == b || (decide (absQ (a - b) ≤ eps) && roundI (a * invEps) == roundI (b * invEps))
+
+/-- `fuzzy_less_than`, value/number.rs:79. -/
+def fuzzyLt (a b : Rat) : Bool := decide (a < b) && !fuzzyEq a b
+/-- `fuzzy_less_than_or_equals`, value/number.rs:83. -/
+def fuzzyLe (a b : Rat) : Bool := decide (a < b) || fuzzyEq a b
+
+/-- Rust `x % 1.0` (truncated remainder). -/
+def fmod1 (x : Rat) : Rat := if 0 ≤ x then x - (x.floor : Rat) else x - (x.ceil : Rat)
+
+/-- `fuzzy_round`, value/number.rs:63 — as written, including the branch for non-positive numbers. -/
+def fuzzyRoundI (x : Rat) : Int :=
+  if x > 0 then
+    if fuzzyLt (fmod1 x) (1/2) then x.floor else x.ceil
+  else if fuzzyLe (fmod1 x) (1/2) then x.floor else x.ceil
+def fuzzyRound (x : Rat) : Rat := (fuzzyRoundI x : Rat)
+
+/-- `Number::clamp`, value/number.rs:137: `min.max(self.min(max))`. -/
+def clamp (x lo hi : Rat) : Rat :=
+  let y := if x < hi then x else hi
+  if lo < y then y else lo
+
+/-- Sass modulo for a positive modulus = `rem_euclid` (value/number.rs:378). -/
+def sassMod (a n : Rat) : Rat := a - n * ((a / n).floor : Rat)
+
+/-- `Number::min` / `Number::max`, value/number.rs:88/97. -/
+def nmin (a b : Rat) : Rat := if a < b then a else b
+def nmax (a b : Rat) : Rat := if a > b then a else b
+
+/-! ## Colours (color/mod.rs:24) -/
+
+inductive Fmt where
+  | rgb | hsl | literal (text : String) | infer
+  deriving DecidableEq, Repr, Inhabited
+
+structure Hsl where
+  hue : Rat
+  sat : Rat
+  lum : Rat
+  deriving DecidableEq, Repr, Inhabited
+
+structure Color where
+  r : Rat
+  g : Rat
+  b : Rat
+  a : Rat                -- raw stored alpha: 255 for named colours (`Color::new` takes a `u8`)
+  hsl : Option Hsl
+  fmt : Fmt
+  deriving DecidableEq, Repr, Inhabited
+
+namespace Color
+
+/-- `red()`, `green()`, `blue()`, color/mod.rs:185: rounded. -/
+def red (c : Color) : Rat := roundQ c.r
+def green (c : Color) : Rat := roundQ c.g
+def blue (c : Color) : Rat := roundQ c.b
+
+/-- `alpha()`, color/mod.rs:440. -/
+def alpha (c : Color) : Rat := if c.a > 1 then c.a / 255 else c.a
+
+/-- `impl PartialEq for Rgb`, color/mod.rs:90, one channel. -/
+def chanEq (x y : Rat) : Bool := !(!fuzzyEq x y && !(decide (x ≥ 255) && decide (y ≥ 255)))
+
+/-- `impl PartialEq for Color`, color/mod.rs:43. -/
+def eq (c d : Color) : Bool :=
+  if !fuzzyEq c.a d.a && !(decide (c.a ≥ 1) && decide (d.a ≥ 1)) then false
+  else chanEq c.r d.r && chanEq c.g d.g && chanEq c.b d.b
+
+end Color
+
+/-- `Color::new_rgba`. -/
+def newRgba (r g b a : Rat) (f : Fmt) : Color := { r, g, b, a, hsl := none, fmt := f }
+
+/-- `Color::new` (named colours), color/mod.rs:146. -/
+def newNamed (r g b a : Nat) (text : String) : Color :=
+  { r := (r : Rat), g := (g : Rat), b := (b : Rat), a := (a : Rat), hsl := none, fmt := .literal text }
+
+/-- `Color::from_rgba`, color/mod.rs:157. -/
+def fromRgba (r g b a : Rat) : Color :=
+  newRgba (clamp r 0 255) (clamp g 0 255) (clamp b 0 255) (clamp a 0 1) .infer
+
+/-- `Color::from_rgba_fn`, color/mod.rs:171. -/
+def fromRgbaFn (r g b a : Rat) : Color :=
+  newRgba (clamp r 0 255) (clamp g 0 255) (clamp b 0 255) (clamp a 0 1) .rgb
+
+/-! ### Named colours and hex literals -/
+
+def lookupName (n : List Nat) : Option (Nat × Nat × Nat × Nat) :=
+  (Grass.Generated.nameToRgba.find? (fun e => e.1 == n)).map (·.2)
+
+def lookupRgb (k : Nat × Nat × Nat) : Option (List Nat) :=
+  (Grass.Generated.rgbaToName.find? (fun e => e.1 == k)).map (·.2)
+
+def lowerCode (c : Nat) : Nat := if 65 ≤ c ∧ c ≤ 90 then c + 32 else c
+
+/-- parse/value.rs:1183: a bare identifier that (lower-cased) is in the table. `codes` are the
+    code points of the spelling as written. -/
+def ofNameCodes (codes : List Nat) (text : String) : Option Color :=
+  match lookupName (codes.map lowerCode) with
+  | some (r, g, b, a) => some (newNamed r g b a text)
+  | none => none
+
+/-- `parse_hex_color_contents`, parse/value.rs:873.  `ds` are the digit values (0–15). -/
+def ofHexDigits (ds : List Nat) (text : String) : Option Color :=
+  match ds with
+  | [d1, d2, d3] =>
+    some (newRgba ((d1 * 16 + d1 : Nat) : Rat) ((d2 * 16 + d2 : Nat) : Rat) ((d3 * 16 + d3 : Nat) : Rat) 1 (.literal text))
+  | [d1, d2, d3, d4] =>
+    some (newRgba ((d1 * 16 + d1 : Nat) : Rat) ((d2 * 16 + d2 : Nat) : Rat) ((d3 * 16 + d3 : Nat) : Rat)
+      (((d4 * 16 + d4 : Nat) : Rat) / 255) (.literal text))
+  | [d1, d2, d3, d4, d5, d6] =>
+    some (newRgba ((d1 * 16 + d2 : Nat) : Rat) ((d3 * 16 + d4 : Nat) : Rat) ((d5 * 16 + d6 : Nat) : Rat) 1 (.literal text))
+  | [d1, d2, d3, d4, d5, d6, d7, d8] =>
+    some (newRgba ((d1 * 16 + d2 : Nat) : Rat) ((d3 * 16 + d4 : Nat) : Rat) ((d5 * 16 + d6 : Nat) : Rat)
+      (((d7 * 16 + d8 : Nat) : Rat) / 255) (.literal text))
+  | _ => none
+
+/-! ### mix, color/mod.rs:200.  `asFound = true` is the pinned tree (D21: channels not rounded). -/
+
+def mix (asFound : Bool) (c1 c2 : Color) (weight : Rat) : Color :=
+  let weight := clamp weight 0 100
+  let nw := weight * 2 - 1
+  let ad := c1.alpha - c2.alpha
+  let cw1 := if fuzzyEq (nw * ad) (-1) then nw else (nw + ad) / (1 + nw * ad)
+  let w1 := (cw1 + 1) / 2
+  let w2 := 1 - w1
+  let rd (x : Rat) : Rat := if asFound then x else fuzzyRound x
+  fromRgba (rd (c1.red * w1 + c2.red * w2)) (rd (c1.green * w1 + c2.green * w2))
+    (rd (c1.blue * w1 + c2.blue * w2)) (c1.alpha * weight + c2.alpha * (1 - weight))
+
+/-! ### HSL, color/mod.rs:225 -/
+
+def min3 (r g b : Rat) : Rat := nmin r (nmin g b)
+def max3 (r g b : Rat) : Rat := nmax r (nmax g b)
+
+/-- `hue()`, color/mod.rs:227. -/
+def Color.hue (c : Color) : Rat :=
+  match c.hsl with
+  | some h => h.hue
+  | none =>
+    let red := c.red / 255; let green := c.green / 255; let blue := c.blue / 255
+    let mn := min3 red green blue; let mx := max3 red green blue
+    let delta := mx - mn
+    let hue :=
+      if fuzzyEq mn mx then 0
+      else if fuzzyEq mx red then 60 * (green - blue) / delta
+      else if fuzzyEq mx green then 120 + 60 * (blue - red) / delta
+      else 240 + 60 * (red - green) / delta
+    sassMod hue 360
+
+/-- `saturation()`, color/mod.rs:255 (in percent). -/
+def Color.saturation (c : Color) : Rat :=
+  match c.hsl with
+  | some h => h.sat * 100
+  | none =>
+    let red := c.red / 255; let green := c.green / 255; let blue := c.blue / 255
+    let mn := min3 red green blue; let mx := max3 red green blue
+    if fuzzyEq mn mx then 0
+    else
+      let delta := mx - mn
+      let sum := mx + mn
+      (delta / (if sum > 1 then 2 - sum else sum)) * 100
+
+/-- `lightness()`, color/mod.rs:286 (in percent).  `asFound = true` is the pinned tree (D14: rounded). -/
+def Color.lightness (asFound : Bool) (c : Color) : Rat :=
+  match c.hsl with
+  | some h => h.lum * 100
+  | none =>
+    let red := c.red / 255; let green := c.green / 255; let blue := c.blue / 255
+    let mn := min3 red green blue; let mx := max3 red green blue
+    let l := ((mn + mx) / 2) * 100
+    if asFound then roundQ l else l
+
+/-- The rgb → hsl conversion of `as_hsla`, color/mod.rs:304–340, on channels already divided by 255.
+    Result: (hue in degrees, saturation in [0,1], lightness in [0,1]). -/
+def rgbToHsl (red green blue : Rat) : Rat × Rat × Rat :=
+  let mn := min3 red green blue; let mx := max3 red green blue
+  let lightness := (mn + mx) / 2
+  let saturation :=
+    if fuzzyEq mn mx then 0
+    else
+      let d := mx - mn
+      let mm := mx + mn
+      d / (if mm > 1 then 2 - mm else mm)
+  let hue :=
+    if fuzzyEq mn mx then 0
+    else if fuzzyEq blue mx then 4 + (red - green) / (mx - mn)
+    else if fuzzyEq green mx then 2 + (blue - red) / (mx - mn)
+    else (green - blue) / (mx - mn)
+  -- `is_negative()`: sign bit set and not fuzzily zero
+  let hue := if hue < 0 && !fuzzyEq hue 0 then hue + 360 else hue
+  let hue := hue * 60
+  (sassMod hue 360, saturation, lightness)
+
+/-- `as_hsla`, color/mod.rs:299. -/
+def Color.asHsla (c : Color) : Rat × Rat × Rat × Rat :=
+  match c.hsl with
+  | some h => (h.hue, h.sat, h.lum, c.alpha)
+  | none =>
+    let (h, s, l) := rgbToHsl (c.red / 255) (c.green / 255) (c.blue / 255)
+    (h, s, l, c.alpha)
+
+/-- `hue_to_rgb`, color/mod.rs:398 (`mul_add(a, b)` is `self * a + b`). -/
+def hueToRgb (m1 m2 hue : Rat) : Rat :=
+  let hue := if hue < 0 then hue + 1 else hue
+  let hue := if hue > 1 then hue - 1 else hue
+  if hue < 1/6 then ((m2 - m1) * hue) * 6 + m1
+  else if hue < 1/2 then m2
+  else if hue < 2/3 then ((m2 - m1) * (2/3 - hue)) * 6 + m1
+  else m1
+
+/-- The hsl → rgb conversion of `from_hsla`, color/mod.rs:379–393 (hue already reduced mod 360);
+    channels before the final `fuzzy_round`, scaled to 0…255. -/
+def hslToRgbExact (hue sat light : Rat) : Rat × Rat × Rat :=
+  let sh := hue / 360
+  let ss := clamp sat 0 1
+  let sl := clamp light 0 1
+  let m2 := if sl ≤ 1/2 then sl * (ss + 1) else sl * (-ss) + (sl + ss)
+  let m1 := sl * 2 + (-m2)
+  (hueToRgb m1 m2 (sh + 1/3) * 255, hueToRgb m1 m2 sh * 255, hueToRgb m1 m2 (sh - 1/3) * 255)
+
+/-- `from_hsla`, color/mod.rs:375. -/
+def fromHsla (hue sat light alpha : Rat) : Color :=
+  let hue := sassMod hue 360
+  let hsl : Hsl := { hue := hue, sat := clamp sat 0 1, lum := clamp light 0 1 }
+  let (r, g, b) := hslToRgbExact hue sat light
+  { r := fuzzyRound r, g := fuzzyRound g, b := fuzzyRound b, a := alpha, hsl := some hsl, fmt := .infer }
+
+/-- `from_hsla_fn`, color/mod.rs:368. -/
+def fromHslaFn (hue sat light alpha : Rat) : Color :=
+  { fromHsla hue sat light alpha with fmt := .hsl }
+
+def adjustHue (c : Color) (degrees : Rat) : Color :=
+  let (h, s, l, a) := c.asHsla
+  fromHsla (h + degrees) s l a
+
+def lighten (c : Color) (amount : Rat) : Color :=
+  let (h, s, l, a) := c.asHsla
+  fromHsla h s (l + amount) a
+
+def darken (c : Color) (amount : Rat) : Color :=
+  let (h, s, l, a) := c.asHsla
+  fromHsla h s (l - amount) a
+
+def saturate (c : Color) (amount : Rat) : Color :=
+  let (h, s, l, a) := c.asHsla
+  fromHsla h (clamp (s + amount) 0 1) l a
+
+def desaturate (c : Color) (amount : Rat) : Color :=
+  let (h, s, l, a) := c.asHsla
+  fromHsla h (clamp (s - amount) 0 1) l a
+
+/-- `invert`, color/mod.rs:417 (`weight` already divided by 100). -/
+def invert (asFound : Bool) (c : Color) (weight : Rat) : Color :=
+  if fuzzyEq weight 0 then c
+  else
+    let inverse := newRgba (255 - c.red) (255 - c.green) (255 - c.blue) c.alpha .infer
+    mix asFound inverse c weight
+
+/-- `complement`, color/mod.rs:431. -/
+def complement (c : Color) : Color :=
+  let (h, s, l, a) := c.asHsla
+  fromHsla (h + 180) s l a
+
+/-! ### Opacity, color/mod.rs:438 -/
+
+def withAlpha (c : Color) (alpha : Rat) : Color := fromRgba c.red c.green c.blue alpha
+def fadeIn (c : Color) (amount : Rat) : Color := fromRgba c.red c.green c.blue (c.alpha + amount)
+def fadeOut (c : Color) (amount : Rat) : Color := fromRgba c.red c.green c.blue (c.alpha - amount)
+
+/-! ### HWB, color/mod.rs:481 -/
+
+/-- channels of `from_hwb` before the final `fuzzy_round`, scaled to 0…255. -/
+def hwbToRgbExact (hue white black : Rat) : Rat × Rat × Rat :=
+  let hue := sassMod hue 360 / 360
+  let sw := white / 100
+  let sb := black / 100
+  let sum := sw + sb
+  let sw' := if sum > 1 then sw / sum else sw
+  let sb' := if sum > 1 then sb / sum else sb
+  let factor := 1 - sw' - sb'
+  let toRgb (h : Rat) : Rat := (hueToRgb 0 1 h * factor + sw') * 255
+  (toRgb (hue + 1/3), toRgb hue, toRgb (hue - 1/3))
+
+def fromHwb (hue white black alpha : Rat) : Color :=
+  let (r, g, b) := hwbToRgbExact hue white black
+  newRgba (fuzzyRound r) (fuzzyRound g) (fuzzyRound b) (clamp alpha 0 1) .infer
+
+def Color.whiteness (c : Color) : Rat := nmin (nmin c.red c.green) c.blue / 255
+def Color.blackness (c : Color) : Rat := 1 - nmax (nmax c.red c.green) c.blue / 255
+
+/-! ### change-color / adjust-color / scale-color, builtin/functions/color/other.rs:14 -/
+
+inductive Upd where
+  | change | adjust | scale
+  deriving DecidableEq, Repr, Inhabited
+
+inductive Err where
+  | bounds        -- an `assert_bounds` / `assert_unit` style argument error
+  | mixedSpaces   -- RGB with HSL/HWB parameters, HSL with HWB parameters
+  | unsupported   -- outside the model
+  deriving DecidableEq, Repr, Inhabited
+
+structure UpdArgs where
+  red : Option Rat := none
+  green : Option Rat := none
+  blue : Option Rat := none
+  alpha : Option Rat := none
+  hue : Option Rat := none
+  saturation : Option Rat := none
+  lightness : Option Rat := none
+  whiteness : Option Rat := none
+  blackness : Option Rat := none
+  deriving Repr, Inhabited
+
+/-- `update_value`, other.rs:173. -/
+def updateValue (current : Rat) (param : Option Rat) (max : Rat) (u : Upd) : Rat :=
+  match param with
+  | none => current
+  | some p =>
+    match u with
+    | .change => p
+    | .adjust => clamp (p + current) 0 max
+    | .scale => current + (if p > 0 then max - current else current) * p
+
+def updateRgb (current : Rat) (param : Option Rat) (u : Upd) : Rat :=
+  fuzzyRound (updateValue current param 255 u)
+
+/-- The tail of `update_components` (other.rs:150–239), after the arguments were checked and scaled. -/
+def updateComponents (u : Upd) (c : Color) (p : UpdArgs) : Except Err Color :=
+  let hasRgb := p.red.isSome || p.green.isSome || p.blue.isSome
+  let hasSl := p.saturation.isSome || p.lightness.isSome
+  let hasWb := p.whiteness.isSome || p.blackness.isSome
+  if hasRgb && (hasSl || hasWb || p.hue.isSome) then .error .mixedSpaces
+  else if hasSl && hasWb then .error .mixedSpaces
+  else if hasRgb then
+    .ok (fromRgba (updateRgb c.red p.red u) (updateRgb c.green p.green u) (updateRgb c.blue p.blue u)
+      (updateValue c.alpha p.alpha 1 u))
+  else if hasWb then
+    .ok (fromHwb
+      (if u = .change then p.hue.getD c.hue else c.hue + p.hue.getD 0)
+      (updateValue c.whiteness p.whiteness 1 u * 100)
+      (updateValue c.blackness p.blackness 1 u * 100)
+      (updateValue c.alpha p.alpha 1 u))
+  else if p.hue.isSome || hasSl then
+    let (h, s, l, a) := c.asHsla
+    .ok (fromHsla
+      (if u = .change then p.hue.getD h else h + p.hue.getD 0)
+      (updateValue s p.saturation 1 u) (updateValue l p.lightness 1 u) (updateValue a p.alpha 1 u))
+  else if p.alpha.isSome then .ok (withAlpha c (updateValue c.alpha p.alpha 1 u))
+  else .ok c
+
+/-! ## Serializer, serializer.rs:396–510 -/
+
+def pow10 : Nat := 10000000000
+
+/-- round-half-even of a non-negative rational to an integer. -/
+def roundHalfEvenNat (x : Rat) : Nat :=
+  let f := x.floor
+  let r := x - (f : Rat)
+  let n := f.toNat
+  if r < 1/2 then n else if r > 1/2 then n + 1 else if n % 2 == 0 then n else n + 1
+
+def padLeft (s : List Char) (n : Nat) : List Char := List.replicate (n - s.length) '0' ++ s
+
+def dropTrailingZeros (s : List Char) : List Char := (s.reverse.dropWhile (· == '0')).reverse
+
+/-- `write_float`, serializer.rs:568: `format!("{:.10}")`, trailing zeros removed; compressed output
+    also drops the leading zero of numbers below 1. -/
+def fmtNum (compressed : Bool) (x : Rat) : String :=
+  let neg := x < 0
+  let n := absQ x
+  let scaled := roundHalfEvenNat (n * pow10)
+  let ip := (toString (scaled / pow10)).toList
+  let fp := dropTrailingZeros (padLeft (toString (scaled % pow10)).toList 10)
+  let digits : List Char :=
+    if compressed && n < 1 then
+      -- trim_start_matches('0') then trailing zeros and '.'
+      let ip' := ip.dropWhile (· == '0')
+      if fp.isEmpty then ip' else ip' ++ ['.'] ++ fp
+    else if fp.isEmpty then ip else ip ++ ['.'] ++ fp
+  let s := (if neg then ['-'] else []) ++ digits
+  if s.isEmpty || s == ['-'] || s == ['-', '0'] then "0" else String.ofList s
+
+def hexChar (n : Nat) : Char := hexDigit n
+
+def hex2 (n : Nat) : List Char := [hexChar (n / 16), hexChar (n % 16)]
+
+def isSymHex (n : Nat) : Bool := n % 16 == n / 16
+
+/-- `as u8` of a rounded channel (saturating cast). -/
+def toU8 (x : Rat) : Nat := let i := roundI x; if i < 0 then 0 else if i > 255 then 255 else i.toNat
+
+def writeRgb (compressed : Bool) (c : Color) : String :=
+  let isOpaque := fuzzyEq c.alpha 1
+  let sep := if compressed then "," else ", "
+  (if isOpaque then "rgb(" else "rgba(") ++ fmtNum compressed c.red ++ sep ++ fmtNum compressed c.green ++ sep
+    ++ fmtNum compressed c.blue ++ (if isOpaque then "" else sep ++ fmtNum compressed c.alpha) ++ ")"
+
+def writeHsl (compressed : Bool) (c : Color) : String :=
+  let isOpaque := fuzzyEq c.alpha 1
+  (if isOpaque then "hsl(" else "hsla(") ++ fmtNum compressed c.hue ++ "deg, " ++ fmtNum compressed c.saturation ++ "%, "
+    ++ fmtNum compressed (c.lightness false) ++ "%" ++ (if isOpaque then "" else ", " ++ fmtNum compressed c.alpha) ++ ")"
+
+def nameStr (n : List Nat) : String := String.ofList (n.map Char.ofNat)
+
+/-- The name the serializer would use (serializer.rs:466–474). -/
+def serName (c : Color) : Option (List Nat) :=
+  if fuzzyEq c.alpha 1 then lookupRgb (toU8 c.red, toU8 c.green, toU8 c.blue) else none
+
+/-- Compressed spelling of an opaque colour as a code list (serializer.rs:477–494): theorem-facing. -/
+def compressedOpaque (rgb : Nat × Nat × Nat) : List Nat :=
+  let (r, g, b) := rgb
+  let short := isSymHex r && isSymHex g && isSymHex b
+  let hexLen := if short then 4 else 7
+  match lookupRgb rgb with
+  | some n => if n.length ≤ hexLen then n else
+      if short then [35, (hexChar (r % 16)).toNat, (hexChar (g % 16)).toNat, (hexChar (b % 16)).toNat]
+      else 35 :: ((hex2 r ++ hex2 g ++ hex2 b).map Char.toNat)
+  | none =>
+      if short then [35, (hexChar (r % 16)).toNat, (hexChar (g % 16)).toNat, (hexChar (b % 16)).toNat]
+      else 35 :: ((hex2 r ++ hex2 g ++ hex2 b).map Char.toNat)
+
+/-- `visit_color`, serializer.rs:465. -/
+def visitColor (compressed : Bool) (c : Color) : String :=
+  let red := toU8 c.red; let green := toU8 c.green; let blue := toU8 c.blue
+  let name := serName c
+  if compressed then
+    if fuzzyEq c.alpha 1 then nameStr (compressedOpaque (red, green, blue))
+    else writeRgb compressed c
+  else
+    match c.fmt with
+    | .rgb => writeRgb compressed c
+    | .hsl => writeHsl compressed c
+    | .literal t => t
+    | .infer =>
+      match name with
+      | some n => if !fuzzyEq c.alpha 0 then nameStr n else
+          if fuzzyEq c.alpha 1 then String.ofList ('#' :: (hex2 red ++ hex2 green ++ hex2 blue)) else writeRgb compressed c
+      | none =>
+        if fuzzyEq c.alpha 1 then String.ofList ('#' :: (hex2 red ++ hex2 green ++ hex2 blue))
+        else writeRgb compressed c
+
+/-- `to_ie_hex_str`, color/mod.rs:470. -/
+def ieHexStr (c : Color) : String :=
+  let up (cs : List Char) : List Char := cs.map Char.toUpper
+  let a := fuzzyRoundI (c.alpha * 255)
+  String.ofList ('#' :: up (hex2 (if a < 0 then 0 else if a > 255 then 255 else a.toNat) ++ hex2 (toU8 c.red)
+    ++ hex2 (toU8 c.green) ++ hex2 (toU8 c.blue)))
+
+/-! ## Property predicates (P̂) — used by the theorems in GrassProofs/C15.lean and by the driver on
+    grass's own output. -/
+
+def isInt (x : Rat) : Bool := x.den == 1
+
+/-- One stored channel: an integer in [0,255]. -/
+def chanOk (x : Rat) : Bool := isInt x && decide (0 ≤ x) && decide (x ≤ 255)
+
+/-- “integer-rounded red/green/blue in [0,255] and alpha in [0,1]”. -/
+def Color.inRange (c : Color) : Bool :=
+  chanOk c.r && chanOk c.g && chanOk c.b && decide (0 ≤ c.alpha) && decide (c.alpha ≤ 1)
+
+/-- Invariant of every colour grass builds: channels as above, raw alpha in [0,1] or the 255 that
+    `Color::new` stores for named colours. -/
+def Color.wf (c : Color) : Bool :=
+  chanOk c.r && chanOk c.g && chanOk c.b && ((decide (0 ≤ c.a) && decide (c.a ≤ 1)) || c.a == 255)
+
+/-- Two colours are “the same colour” for the property: equal under grass's `==` and printed
+    identically in compressed mode. -/
+def sameColor (c d : Color) : Bool := c.eq d && visitColor true c == visitColor true d
+
+/-! ## Driver protocol
+
+  color eval <sexpr tokens…>   evaluate an expression; answers
+       `ok color <r> <g> <b> <a> | <hex compressed> | <hex expanded>`  (channels as `n/d`, texts hex-encoded)
+       `ok num <n/d> <unit>` | `ok bool 0|1` | `ok str <hex>` | `err <class>` | `unsupported`
+  S-expression tokens: `(` f arg… `)`; atoms `n:<num>/<den>:<unit>` (unit `-` none, `pct`, `deg`),
+  `c:<spelling>` named colour, `h:<digits>` hex colour, `k:<name>` keyword marker (next arg is its value).
+  color inrange <r> <g> <b> <a>                  P̂ range on an observed colour (rationals `n/d`)
+  color same <r g b a> <r g b a>                 `Color.eq` on two observed colours
+  color named-consistent                         table checks (also proved by `decide +kernel`)
+-/
+
+inductive Val where
+  | color (c : Color)
+  | num (x : Rat) (unit : String)
+  | bool (b : Bool)
+  | str (s : String)
+  deriving Repr, Inhabited
+
+def ratStr (x : Rat) : String := toString x.num ++ "/" ++ toString x.den
+
+def parseRat? (s : String) : Option Rat :=
+  match s.splitOn "/" with
+  | [n] => n.toInt?.map (fun i => (i : Rat))
+  | [n, d] =>
+    match n.toInt?, d.toNat? with
+    | some n, some d => if d == 0 then none else some ((n : Rat) / (d : Rat))
+    | _, _ => none
+  | _ => none
+
+def valStr : Val → String
+  | .color c =>
+    "ok color " ++ ratStr c.r ++ " " ++ ratStr c.g ++ " " ++ ratStr c.b ++ " " ++ ratStr c.alpha ++ " | "
+      ++ hexEncode (visitColor true c) ++ " | " ++ hexEncode (visitColor false c)
+  | .num x u => "ok num " ++ ratStr x ++ " " ++ (if u == "" then "-" else u)
+  | .bool b => "ok bool " ++ boolStr b
+  | .str s => "ok str " ++ hexEncode s
+
+def errStr : Err → String
+  | .bounds => "err bounds"
+  | .mixedSpaces => "err mixed"
+  | .unsupported => "unsupported"
+
+/-- `percentage_or_unitless`, rgb.rs:152. -/
+def pctOrUnitless (x : Rat) (u : String) (max : Rat) : Except Err Rat :=
+  if u == "" then .ok (clamp x 0 max)
+  else if u == "pct" then .ok (clamp ((x * max) / 100) 0 max)
+  else .error .bounds
+
+/-- `angle_value`, builtin/functions/color/mod.rs:23, for unitless / deg / % (other angle units are
+    outside the model). -/
+def angleValue (x : Rat) (u : String) : Except Err Rat :=
+  if u == "" || u == "deg" || u == "pct" then .ok x else .error .unsupported
+
+/-- `assert_bounds`, value/sass_number.rs:194 (exact comparisons). -/
+def assertBounds (x lo hi : Rat) : Except Err Unit :=
+  if x ≤ hi ∧ x ≥ lo then .ok () else .error .bounds
+
+def asColor : Val → Except Err Color
+  | .color c => .ok c
+  | _ => .error .unsupported
+
+def asNum : Val → Except Err (Rat × String)
+  | .num x u => .ok (x, u)
+  | _ => .error .unsupported
+
+/-- rgb()/rgba() with 3 or 4 numeric arguments, rgb.rs:82. -/
+def fnRgb (r g b : Rat × String) (a : Option (Rat × String)) : Except Err Color :=
+  match pctOrUnitless r.1 r.2 255, pctOrUnitless g.1 g.2 255, pctOrUnitless b.1 b.2 255 with
+  | .ok r, .ok g, .ok b =>
+    match a with
+    | none => .ok (fromRgbaFn (fuzzyRound r) (fuzzyRound g) (fuzzyRound b) 1)
+    | some a =>
+      match pctOrUnitless a.1 a.2 1 with
+      | .ok a => .ok (fromRgbaFn (fuzzyRound r) (fuzzyRound g) (fuzzyRound b) a)
+      | .error e => .error e
+  | .error e, _, _ => .error e
+  | _, .error e, _ => .error e
+  | _, _, .error e => .error e
+
+/-- hsl()/hsla() with 3 or 4 numeric arguments, hsl.rs:11. -/
+def fnHsl (h s l : Rat × String) (a : Option (Rat × String)) : Except Err Color :=
+  match angleValue h.1 h.2 with
+  | .error e => .error e
+  | .ok hue =>
+    let a := a.getD (1, "")
+    match pctOrUnitless a.1 a.2 1 with
+    | .error e => .error e
+    | .ok alpha => .ok (fromHslaFn (sassMod hue 360) (s.1 / 100) (l.1 / 100) alpha)
+
+/-- color.hwb() with 3 or 4 numeric arguments, hwb.rs:37. -/
+def fnHwb (h w b : Rat × String) (a : Option (Rat × String)) : Except Err Color :=
+  match angleValue h.1 h.2 with
+  | .error e => .error e
+  | .ok hue =>
+    if w.2 != "pct" || b.2 != "pct" then .error .bounds
+    else
+      match assertBounds w.1 0 100, assertBounds b.1 0 100 with
+      | .ok _, .ok _ =>
+        let a := a.getD (1, "")
+        match pctOrUnitless a.1 a.2 1 with
+        | .error e => .error e
+        | .ok alpha => .ok (fromHwb hue w.1 b.1 alpha)
+      | .error e, _ => .error e
+      | _, .error e => .error e
+
+/-- `$amount` of lighten/darken/saturate/desaturate and `$weight` of mix/invert: bounds [0,100]
+    (any unit), then divided by 100. -/
+def pctAmount (x : Rat) : Except Err Rat :=
+  match assertBounds x 0 100 with
+  | .ok _ => .ok (x / 100)
+  | .error e => .error e
+
+/-- one keyword argument of change/adjust/scale, `check_num` in other.rs:33. -/
+def checkNum (u : Upd) (x : Rat) (unit : String) (max : Rat) (assertPercent : Bool) : Except Err Rat :=
+  let max := if u = .scale then 100 else max
+  let lo := if u = .change then 0 else -max
+  if (assertPercent || u = .scale) && unit != "pct" then .error .bounds
+  else
+    match assertBounds x lo max with
+    | .error e => .error e
+    | .ok _ => .ok (if max == 100 then x / 100 else x)
+
+def setArg (u : Upd) (p : UpdArgs) (k : String) (x : Rat) (unit : String) : Except Err UpdArgs :=
+  match k with
+  | "red" => (checkNum u x unit 255 false).map fun v => { p with red := some v }
+  | "green" => (checkNum u x unit 255 false).map fun v => { p with green := some v }
+  | "blue" => (checkNum u x unit 255 false).map fun v => { p with blue := some v }
+  | "alpha" => (checkNum u x unit 1 false).map fun v => { p with alpha := some v }
+  | "hue" => if u = .scale then .error .unsupported else (angleValue x unit).map fun v => { p with hue := some v }
+  | "saturation" => (checkNum u x unit 100 false).map fun v => { p with saturation := some v }
+  | "lightness" => (checkNum u x unit 100 false).map fun v => { p with lightness := some v }
+  | "whiteness" => (checkNum u x unit 100 true).map fun v => { p with whiteness := some v }
+  | "blackness" => (checkNum u x unit 100 true).map fun v => { p with blackness := some v }
+  | _ => .error .unsupported
+
+/-- Keyword arguments are checked in the fixed order red, green, blue, alpha, hue, saturation,
+    lightness, whiteness, blackness (other.rs:97–112); the first failing one decides the error, and
+    every failure is an argument error, so the order does not matter for the error *class*. -/
+def buildArgs (u : Upd) : UpdArgs → List (String × Val) → Except Err UpdArgs
+  | p, [] => .ok p
+  | p, (k, .num x unit) :: rest =>
+    match setArg u p k x unit with
+    | .ok p => buildArgs u p rest
+    | .error e => .error e
+  | _, _ => .error .unsupported
+
+def applyFn (f : String) (args : List Val) (kw : List (String × Val)) : Except Err Val :=
+  match f, args, kw with
+  | "rgb", [.num r ru, .num g gu, .num b bu], [] => (fnRgb (r, ru) (g, gu) (b, bu) none).map .color
+  | "rgb", [.num r ru, .num g gu, .num b bu, .num a au], [] => (fnRgb (r, ru) (g, gu) (b, bu) (some (a, au))).map .color
+  | "rgb", [.color c, .num a au], [] => (pctOrUnitless a au 1).map fun a => .color (withAlpha c a)
+  | "hsl", [.num h hu, .num s su, .num l lu], [] => (fnHsl (h, hu) (s, su) (l, lu) none).map .color
+  | "hsl", [.num h hu, .num s su, .num l lu, .num a au], [] => (fnHsl (h, hu) (s, su) (l, lu) (some (a, au))).map .color
+  | "hwb", [.num h hu, .num w wu, .num b bu], [] => (fnHwb (h, hu) (w, wu) (b, bu) none).map .color
+  | "hwb", [.num h hu, .num w wu, .num b bu, .num a au], [] => (fnHwb (h, hu) (w, wu) (b, bu) (some (a, au))).map .color
+  | "red", [.color c], [] => .ok (.num c.red "")
+  | "green", [.color c], [] => .ok (.num c.green "")
+  | "blue", [.color c], [] => .ok (.num c.blue "")
+  | "alpha", [.color c], [] => .ok (.num c.alpha "")
+  | "hue", [.color c], [] => .ok (.num c.hue "deg")
+  | "saturation", [.color c], [] => .ok (.num c.saturation "pct")
+  | "lightness", [.color c], [] => .ok (.num (c.lightness false) "pct")
+  | "lightness-asfound", [.color c], [] => .ok (.num (c.lightness true) "pct")
+  | "whiteness", [.color c], [] => .ok (.num (c.whiteness * 100) "pct")
+  | "blackness", [.color c], [] => .ok (.num (c.blackness * 100) "pct")
+  | "mix", [.color c1, .color c2], [] => .ok (.color (mix false c1 c2 (50 / 100)))
+  | "mix", [.color c1, .color c2, .num w _], [] => (pctAmount w).map fun w => .color (mix false c1 c2 w)
+  | "mix-asfound", [.color c1, .color c2, .num w _], [] => (pctAmount w).map fun w => .color (mix true c1 c2 w)
+  | "invert", [.color c], [] => .ok (.color (invert false c 1))
+  | "invert", [.color c, .num w _], [] => (pctAmount w).map fun w => .color (invert false c w)
+  | "complement", [.color c], [] => .ok (.color (complement c))
+  | "grayscale", [.color c], [] => .ok (.color (desaturate c 1))
+  | "adjust-hue", [.color c, .num d du], [] => (angleValue d du).map fun d => .color (adjustHue c d)
+  | "lighten", [.color c, .num x _], [] => (pctAmount x).map fun x => .color (lighten c x)
+  | "darken", [.color c, .num x _], [] => (pctAmount x).map fun x => .color (darken c x)
+  | "saturate", [.color c, .num x _], [] => (pctAmount x).map fun x => .color (saturate c x)
+  | "desaturate", [.color c, .num x _], [] => (pctAmount x).map fun x => .color (desaturate c x)
+  | "opacify", [.color c, .num x _], [] => (assertBounds x 0 1).map fun _ => .color (fadeIn c x)
+  | "transparentize", [.color c, .num x _], [] => (assertBounds x 0 1).map fun _ => .color (fadeOut c x)
+  | "ie-hex-str", [.color c], [] => .ok (.str (ieHexStr c))
+  | "eq", [.color c, .color d], [] => .ok (.bool (c.eq d))
+  | "change", [.color c], kw => (buildArgs .change {} kw).bind fun p => (updateComponents .change c p).map .color
+  | "adjust", [.color c], kw => (buildArgs .adjust {} kw).bind fun p => (updateComponents .adjust c p).map .color
+  | "scale", [.color c], kw => (buildArgs .scale {} kw).bind fun p => (updateComponents .scale c p).map .color
+  | _, _, _ => .error .unsupported
+
+def hexDigitsOf (s : String) : Option (List Nat) := s.toList.mapM hexVal
+
+def parseAtom (t : String) : Except Err Val :=
+  match t.splitOn ":" with
+  | ["n", q, u] =>
+    match parseRat? q with
+    | some x => .ok (.num x (if u == "-" then "" else u))
+    | none => .error .unsupported
+  | ["c", s] =>
+    match ofNameCodes (s.toList.map Char.toNat) s with
+    | some c => .ok (.color c)
+    | none => .error .unsupported
+  | ["h", s] =>
+    match hexDigitsOf s with
+    | some ds =>
+      match ofHexDigits ds ("#" ++ s) with
+      | some c => .ok (.color c)
+      | none => .error .unsupported
+    | none => .error .unsupported
+  | _ => .error .unsupported
+
+mutual
+/-- parse-and-evaluate one expression; fuel bounds the nesting. -/
+def evalExpr : Nat → List String → Except Err (Val × List String)
+  | 0, _ => .error .unsupported
+  | _, [] => .error .unsupported
+  | fuel + 1, "(" :: f :: rest =>
+    match evalArgs fuel rest [] [] with
+    | .ok (args, kw, rest) =>
+      match applyFn f args kw with
+      | .ok v => .ok (v, rest)
+      | .error e => .error e
+    | .error e => .error e
+  | _, t :: rest =>
+    match parseAtom t with
+    | .ok v => .ok (v, rest)
+    | .error e => .error e
+
+def evalArgs : Nat → List String → List Val → List (String × Val) → Except Err (List Val × List (String × Val) × List String)
+  | 0, _, _, _ => .error .unsupported
+  | _, [], _, _ => .error .unsupported
+  | _, ")" :: rest, acc, kw => .ok (acc.reverse, kw.reverse, rest)
+  | fuel + 1, t :: rest, acc, kw =>
+    if t.startsWith "k:" then
+      match evalExpr fuel rest with
+      | .ok (v, rest) => evalArgs fuel rest acc (((t.drop 2).toString, v) :: kw)
+      | .error e => .error e
+    else
+      match evalExpr fuel (t :: rest) with
+      | .ok (v, rest) => evalArgs fuel rest (v :: acc) kw
+      | .error e => .error e
+end
+
+def observed (r g b a : String) : Option Color :=
+  match parseRat? r, parseRat? g, parseRat? b, parseRat? a with
+  | some r, some g, some b, some a => some (newRgba r g b a .infer)
+  | _, _, _, _ => none
 
 def handle : List String → String
+  | "eval" :: toks =>
+    match evalExpr (toks.length + 1) toks with
+    | .ok (v, []) => valStr v
+    | .ok (_, _) => "bad-op"
+    | .error e => errStr e
+  | ["inrange", r, g, b, a] =>
+    match observed r g b a with
+    | some c => "ok " ++ boolStr c.inRange
+    | none => "bad-op"
+  | ["same", r, g, b, a, r', g', b', a'] =>
+    match observed r g b a, observed r' g' b' a' with
+    | some c, some d => "ok " ++ boolStr (sameColor c d)
+    | _, _ => "bad-op"
   | _ => "bad-op"
 
 end Grass.Color
